@@ -17,6 +17,8 @@ type Gen struct {
 	MaxDepth int
 	// Stats counts what was generated (printed into the evidence).
 	Stats map[string]int
+	// noShorthand suppresses the single-property shorthand (one-of members need a real map)
+	noShorthand bool
 }
 
 func NewGen(seed int64) *Gen {
@@ -766,7 +768,9 @@ func (g *Gen) Value(t *Ty, env Env, depth int) *Val {
 		for mt.T == "ref" {
 			mt = env[mt.ID]
 		}
+		g.noShorthand = true
 		v := g.objectValue(mt, env, depth)
+		g.noShorthand = false
 		if v.Kind != "m" {
 			v = StrAny()
 		}
@@ -844,7 +848,7 @@ func (g *Gen) objectValue(t *Ty, env Env, depth int) *Val {
 		}
 		return m
 	}
-	if len(t.Props) == 1 && g.p(0.2) {
+	if len(t.Props) == 1 && !g.noShorthand && g.p(0.2) {
 		// single-property shorthand
 		return g.Value(t.Props[0].P.Ty, env, depth+1)
 	}
